@@ -204,6 +204,7 @@ def replay_behs(ctx, exe, behs, ninst):
                 ctx.violation("TraceState crashed (rc=%s) while replaying a TLC behaviour (src=%s): %s" % (
                     hr.rc, nxt["src"], _crash_summary(hr.err)), {"kind": "behaviour", "beh": nxt})
     took = {}
+    modes = {}
     reports = 0
     stopped = 0
     for j in jobs:
@@ -214,6 +215,7 @@ def replay_behs(ctx, exe, behs, ninst):
         ctx.distinct.add(hashlib.sha1((json.dumps(j["steps"], sort_keys=True) + str(j["inst"])).encode()).hexdigest())
         for t in v["took"]:
             took[t] = took.get(t, 0) + 1
+        modes[v.get("mode", -1)] = modes.get(v.get("mode", -1), 0) + 1
         if v.get("stopped", -1) >= 0:
             stopped += 1
         if not v["ok"]:
@@ -229,6 +231,10 @@ def replay_behs(ctx, exe, behs, ninst):
                     st["op"], st.get("k"), st.get("v"), st.get("o")),
                     {"kind": "behaviour", "beh": j, "step": i})
     ctx.extra["replay_results"] = took
+    ctx.extra["key_relation_modes_replayed"] = {{0: "independent", 1: "prefix-chain", 2: "same-length-siblings"}.get(k, str(k)): n
+                                                for k, n in sorted(modes.items())}
+    if len(results) >= 300 and not all(modes.get(m) for m in (0, 1, 2)):
+        raise Broken("vacuity: a key-relation mode of the concretiser was never used: %s" % modes)
     ctx.extra["replay_truncated_at_alternative"] = stopped
     ctx.extra["behaviour_instances_replayed"] = len(results)
     if len(results) < len(jobs) and not ctx.violations:
@@ -332,6 +338,9 @@ def run(ctx):
     ctx.assumptions += [
         "keys and values are abstracted to <<class, n>>; the concretisation table in harness/c14_tracestate.cc "
         "(several seeded instances per class) is trusted; verdict-homogeneity of a class is sampled, not proved",
+        "distinct abstract keys must behave alike however their strings relate: a third of the behaviours / histories "
+        "concretise the valid keys as a prefix chain (k, k1, k10; t vs t@s vs t@s2), a third as same-length keys differing in "
+        "the last characters; upper-case keys are then case variants of present keys",
         "grammar oracle = W3C trace-context level 1 with the permissive reading where level 1 and 2 differ: simple "
         "keys starting with a digit and system-ids starting with a digit are never generated (don't-care)",
         "don't-care bands: valid headers with empty members / blanks around members may parse to the complete list or "
